@@ -28,3 +28,11 @@ check('C02',
       "generator's description; then is/<</>> on all ordered node pairs and union/intersect/except/root/innermost/outermost on all operand pairs.",
       'expected sequence from mc/models/xdm.py; order among the namespace nodes of one element is free',
       'DESIGN.md section 3 C02')
+check('C14',
+      'bounded-exhaustive enumeration of trees x every node; identity round trip of the generated path through the real evaluator',
+      'For every node (document, element, attribute, namespace, text, comment, PI) of every generated tree (repeated and namespaced names, '
+      'default namespaces, PI targets that repeat or equal function/element names, interleaved text/comment siblings, lxml document-level '
+      'siblings) x root kind x library: fn:path(.), the node.path property and etree_iter_paths are produced by the implementation and '
+      'evaluated back with the 3.0 and 3.1 parsers against the same root; the result must be exactly that node and paths must be pairwise distinct.',
+      'oracle is node identity through the wrapped etree objects (no string comparison with a model)',
+      'DESIGN.md section 3 C14')
